@@ -173,11 +173,11 @@ func mkSelDoc() *selDoc {
 	d.tags = []any{d.s, "k", d.s, "z", "k", "q"}
 	d.doc = Map{
 		"tags": d.tags,
-		"a":   Map{"b": d.x, "c": d.s, "n": nil},
-		"arr": d.arr,
-		"m":   d.m,
-		"k.k": Map{"c": d.y},
-		"num": "12.5",
+		"a":    Map{"b": d.x, "c": d.s, "n": nil},
+		"arr":  d.arr,
+		"m":    d.m,
+		"k.k":  Map{"c": d.y},
+		"num":  "12.5",
 	}
 	return d
 }
